@@ -135,6 +135,15 @@ def nontrivial(prog, steps):
     return False
 
 
+def site_scan():
+    """source-derived tie: the unchecked node-table indexing sites of sycamore-reactive are exactly those the model accounts for"""
+    import sites
+    extra, missing = sites.diff()
+    ok = not extra and not missing
+    return [("source scan: every unchecked node-table index of sycamore-reactive is a site of the runtime model (tools/sites_expected.json, %d sites)" % len(sites.expected()),
+             ok, "new unchecked sites: %s ; vanished: %s" % (extra, missing))]
+
+
 def main(argv):
     return rcheck.run(
         PID, argv, module="C11", theorems=["C11_no_runtime_panic_program", "C11_no_runtime_panic", "C11_no_runtime_panic_dispose", "C11_wf_init",
@@ -143,4 +152,5 @@ def main(argv):
               "and batch body of 3 base programs (one insertion per case, exhaustive); read-then-dispose programs; random programs "
               "with disposals from callbacks, cleanups and batches; non-trivial = a node was destroyed during a step that ran user "
               "code; distinct = distinct program text"),
-        assumptions=["use of a disposed signal by the program itself is a user error (panic 'signal was disposed'), not a runtime panic"])
+        assumptions=["use of a disposed signal by the program itself is a user error (panic 'signal was disposed'), not a runtime panic"],
+        extra_obligations=site_scan)
